@@ -1,0 +1,11 @@
+//go:build verif
+
+// Contracts for package restrict, checked by /verif/govc. Comments only.
+
+package restrict
+
+// Landlock only takes permissions away; it has no file-system effect of its
+// own that the properties speak about.
+//@ func restrict.MaybeFileSystem
+//@   trusted
+//@   pure
